@@ -7,6 +7,7 @@ operation that fails leaves the copy as it was and the dispatcher goes on), `res
 `errorsFrom` are the results / (position, error) pairs of that fold.
 -/
 import CV.Proofs.StoreTxn
+import CV.Proofs.StoreFuel
 namespace CV.Store
 open CV
 
@@ -176,6 +177,17 @@ theorem rejected_command_leaves_state (s : State) (idx : Nat) (c : Cmd)
   | sessionDestroy id => exact hS _ h
   | register r => exact hS _ h
   | pqSet a b => exact hS _ h
+
+/-- No transaction ever reports the model-internal `fuel` error at any position (so the error
+    positions of the model are errors of the code, never an artefact of the bounded recursion). -/
+theorem txn_never_reports_fuel (s : State) (idx : Nat) (ops : List TxnOp) :
+    ∀ pe ∈ (txnRW s idx ops).2.2, pe.2 ≠ .fuel := by
+  intro pe hpe hc
+  obtain ⟨p, e⟩ := pe
+  simp only at hc
+  subst hc
+  obtain ⟨op, -, hstep⟩ := (txn_error_positions s idx ops p .fuel).mp hpe
+  exact txnStep_nofuel _ _ _ hstep
 
 /-! ### non-vacuity -/
 
